@@ -88,6 +88,8 @@ pub enum Ev {
     Panic,
     /// a source function (not a talkback) received a non-handshake message
     Stray(Actor),
+    /// a puppet subscription deferred its answer to a Pull
+    Defer(u16),
 }
 
 #[derive(Clone, Copy, Debug, PartialEq, Eq, Hash)]
